@@ -25,6 +25,7 @@ class _NoSleep:
 
     def sleep(self, n):
         self.slept += n
+        env.sched_sleep()
 
     def time(self):
         return 1700000000.0
